@@ -125,7 +125,8 @@ void hist_return(int idx, long res);
 void hist_drop(int idx); /* operation abandoned (e.g. RETRY): removed from history */
 int hist_count(void);
 /* returns 0 if linearizable, else -1 and fills msg */
-int hist_check(char* msg, size_t msglen);
+int hist_check(char* msg, size_t msglen); /* 0 linearizable, -1 not (msg filled), -2 search budget exhausted */
+uint64_t hist_seq_hash(const long* v, int n);
 enum { OP_PUSH = 1, OP_POP, OP_TRYPUSH, OP_FLUSH_LIFO, OP_FLUSH_FIFO };
 #define RES_EMPTY (-1L)
 #define RES_FAIL (-2L)
